@@ -116,8 +116,8 @@ fn run27(ctx: &mut Ctx) {
             let kind = p.r.last_kind;
             trace.push(format!("x{pc0:04X} {}", if kind == StepKind::InterruptEntry { "interrupt-entry" } else { cls })); if trace.len() > 24 { trace.remove(0); }
             let case = || desc.clone().set("last_steps", Json::Arr(trace.iter().map(|t| Json::from(t.as_str())).collect())).set("step", s);
-            if p.compare(&got, exp, false).is_some() { ctx.count("diverged-from-reference (reported by C08)"); return; }
             if got.is_ok() { if let Some((c, d)) = check_frames(&p) { let k = if kind == StepKind::InterruptEntry { "interrupt-entry" } else { cls }; ctx.violation(&format!("frames:{c}:{k}"), format!("after step {s} at x{pc0:04X} ({k}): {d}"), case()); return; } }
+            if p.compare(&got, exp, false).is_some() { ctx.count("diverged-from-reference (reported by C08)"); return; }
             maxdepth = maxdepth.max(p.r.frame_no);
             if got.is_ok() {
                 match (kind, cls) { (StepKind::InterruptEntry, _) => ctx.count("pushed.interrupt"), (StepKind::TrapEntry, _) if exp == Outcome::Ok => ctx.count("pushed.trap"), (StepKind::ExceptionEntry, _) => ctx.count("pushed.exception"), (_, "JSR") | (_, "JSRR") => ctx.count("pushed.subroutine"), (_, "RTI") => ctx.count("popped.rti"), (_, "JMP") if p.r.mem[pc0 as usize] == 0xC1C0 => ctx.count(if p.r.frame_no == 0 && maxdepth == 0 { "popped.ret-at-depth-0" } else { "popped.ret" }), _ => {} }
